@@ -1492,7 +1492,7 @@ class TTNS(TTNBase):
         parent = node.parent
         assert parent is not None
         qnbigl, qnbigr, _ = self.get_qnmat(node, include_parent=True)
-        dim1 = np.prod(qnbigl.shape)
+        dim1 = np.prod(qnbigl.shape[:-1])
         tensor = asnumpy(tensor.reshape(dim1, -1))
         # u for snode and v for parent
         # duplicate with MatrixProduct._udpate_mps. Should consider merging when doing e.g. state averaged algorithm.
